@@ -31,14 +31,15 @@ def rsel(r, allow_none=True, empty_p=0.25, keys=KEYS, vals=VALS):
         return {}
     s = {}
     if r.random() < 0.7:
-        s['matchLabels'] = {k: r.choice(vals) for k in r.sample(keys, r.randint(1, 2))}
+        # (an empty value is a value: it matches the label set to "", not a missing label)
+        s['matchLabels'] = {k: ('' if r.random() < 0.12 else r.choice(vals)) for k in r.sample(keys, r.randint(1, 2))}
     if r.random() < 0.5 or not s:
         ex = []
         for k in r.sample(keys, r.randint(1, 2)):
             op = r.choice(['In', 'NotIn', 'Exists', 'DoesNotExist'])
             e = {'key': k, 'operator': op}
             if op in ('In', 'NotIn'):
-                e['values'] = r.sample(vals + ['zz'], r.randint(1, 2))
+                e['values'] = r.sample(vals + ['zz', ''], r.randint(1, 2))
             ex.append(e)
         s['matchExpressions'] = ex
     return s
@@ -82,7 +83,7 @@ def gen_world(r, anp=False, big=False, pods=True, multi_kind=True):
         if kind == 'Pod' and not pods:
             kind = 'Deployment'
         wl = {'kind': kind, 'ns': r.choice(nss), 'name': 'w%d' % i,
-              'labels': {k: r.choice(VALS) for k in r.sample(KEYS, r.randint(0, 3))}, 'ports': ports,
+              'labels': {k: ('' if r.random() < 0.06 else r.choice(VALS)) for k in r.sample(KEYS, r.randint(0, 3))}, 'ports': ports,
               'replicas': r.choice([None, 0, 1, 2, 3]), 'owner': None}
         if kind == 'Pod' and r.random() < 0.4:
             wl['owner'] = {'name': 'own%d' % i, 'kind': r.choice(['ReplicaSet', 'StatefulSet', 'Job'])}
